@@ -99,7 +99,7 @@ def oracle(case, ob):
 PROP = Prop(
     pid="C13",
     props_v="theories/Props/C13.v",
-    theory_files=["theories/Sched/Model.v", "theories/Sched/Corr.v", "theories/Sched/LockProofs.v"],
+    theory_files=["theories/Sched/Model.v", "theories/Sched/Corr.v", "theories/Sched/Tables.v", "theories/Sched/QFacts.v", "theories/Sched/LockInv.v", "theories/Sched/Footprint.v", "theories/Sched/LockOps.v", "theories/Sched/LockLib.v", "theories/Sched/LockProofs.v", "theories/Sched/LockStatic.v", "theories/Sched/LockThms.v"],
     streams=[make_stream("locks", gen, oracle)],
     rule="bounded-exhaustive environment sequences over {step, cancel i, task_throw i e, arrival of a more urgent "
          "contender} against three contenders on one PriorityLock (stock and priority loop), plus random worker "
